@@ -74,6 +74,16 @@ def tus(tier, seed):
     res.append(dict(name='C12_kernels', src=body, compiler='g++'))
     if tier == 'thorough':
         res.append(dict(name='C12_kernels_clang', src=body, compiler='clang++'))
+    # shift-and-compare equivalence: mixed-exponent comparisons over narrow reps, both operand orders
+    # (lines of the C03 table; the driver's oracle is the built-in comparison of the aligned representations)
+    import os
+    chdr = os.path.join(os.path.dirname(os.path.abspath(__file__)), 'C01.h')
+    body = '#define SEC_C03 1\n#include "%s"\nint main(){ install(); Rng rng(seed_from_env()+555);\n' % chdr
+    for (a, e1, b, e2) in [('std::int16_t', -7, 'std::uint8_t', -4), ('std::uint8_t', -4, 'std::int16_t', -7), ('std::int8_t', -6, 'std::int16_t', -2),
+                           ('std::int16_t', -2, 'std::int8_t', -6), ('std::uint16_t', -10, 'std::uint8_t', -3), ('std::int32_t', -20, 'std::int8_t', -1)]:
+        body += '  go<%s, %d, %s, %d, 2>(rng);\n' % (a, e1, b, e2)
+    body += '}\n'
+    res.append(dict(name='C12_shiftcmp', src=body, compiler='g++'))
     return res
 
 
